@@ -151,7 +151,7 @@ PROPS.update({
 
 PROPS.update({
     "C06": {
-        "level_text": "Fault enumeration with memory monitors: the shape-exhaustive enumeration of the safe API (encode, stripe incl. buffer-reuse/clone/configure histories, f32 and u8 scoring with every backend and dispatcher arm, max/argmax/threshold, scanner, sampler, dense-matrix histories) is executed under AddressSanitizer (every instrumented load/store incl. vmovdqu/vmovntdq), under valgrind memcheck (gather instructions that ASan does not instrument), in an overflow/alignment-checking build (misaligned raw-pointer dereferences panic) and in the release build (vmovdqa/vmovntps fault on misalignment). Any monitor report is attributed to its case through a breadcrumb, confirmed by replaying that case alone twice, and the shard is resumed after it.",
+        "level_text": "Fault enumeration with memory monitors: the shape-exhaustive enumeration of the safe API (encode, stripe incl. buffer-reuse/clone/configure histories, f32 and u8 scoring with every backend and dispatcher arm, max/argmax/threshold, scanner, sampler, dense-matrix histories) is executed under AddressSanitizer twice (optimised build; and an UNOPTIMISED build for the kernels, where loads whose result is unused are not eliminated), under valgrind memcheck (gather instructions that ASan does not instrument), in an overflow/alignment-checking build (misaligned raw-pointer dereferences panic) and in the release build (vmovdqa/vmovntps fault on misalignment). Any monitor report is attributed to its case through a breadcrumb, confirmed by replaying that case alone twice, and the shard is resumed after it.",
         "level_note": "Trusted: ASan / valgrind / rustc's debug alignment checks as oracles. Over-reads that stay inside the same allocation are legal by the property and invisible by construction. NEON not executed. Uninitialised-value use is not part of the statement and is not flagged (valgrind --undef-value-errors=no).",
         "technique": "bounded-exhaustive enumeration of shapes x backends x call histories executed under memory monitors (ASan, valgrind, alignment checks) with breadcrumb attribution",
         "level": "fault_enumeration",
@@ -159,12 +159,14 @@ PROPS.update({
         "monitors": {
             "quick": [
                 {"name": "asan", "variant": "asan"},
+                {"name": "asan0", "variant": "asan0", "only": "score_exact,gather,stripe_reuse_v,maxima,score_u8,sample,scan"},
                 {"name": "chk", "variant": "chk"},
                 {"name": "rel", "variant": "rel"},
                 {"name": "valgrind", "variant": "rel", "only": "gather,maxima,score_u8,stripe_reuse_v"},
             ],
             "thorough": [
                 {"name": "asan", "variant": "asan"},
+                {"name": "asan0", "variant": "asan0", "only": "score_exact,gather,stripe_reuse_v,maxima,score_u8,sample,scan,score,stripe_histories,dense"},
                 {"name": "chk", "variant": "chk"},
                 {"name": "rel", "variant": "rel"},
                 {"name": "valgrind", "variant": "rel", "only": "gather,maxima,score_u8,stripe_reuse_v,score_exact,score,scan,sample,stripe_histories,dense,encode_v,stripe_v"},
